@@ -71,6 +71,14 @@
 
 #![cfg_attr(docsrs, feature(doc_auto_cfg))]
 
+// Verification hook, off by default: with `--cfg eyeball_verif` the std synchronisation
+// primitives used by the default (sync) lock flavour come from a crate supplied by the
+// verification harness (a scheduler-controlled drop-in), otherwise this is `std::sync`.
+#[cfg(eyeball_verif)]
+pub(crate) use eyeball_verif_sync as sync_impl;
+#[cfg(not(eyeball_verif))]
+pub(crate) use std::sync as sync_impl;
+
 mod lock;
 mod read_guard;
 mod shared;
